@@ -66,4 +66,14 @@ var specs = map[string]*propSpec{
 		Faults: "systematically invalidated documents, rejecting extensions, cache eviction at any quiescent point, overlapping and simultaneous requests",
 		Assume: []string{"subscriptions are not part of these histories (their gate is checked by the websocket scenario)", "the semantic window between RemoveRule and ReplaceRule has no seam; it is covered only through the race detector"},
 	},
+	"C15": {
+		ID: "C15", Scenario: "apqsim", Race: true, Level: "exploration", Cpu: 4,
+		Quick:    tierSpec{Runs: 20000, Budget: 75 * time.Second, Variants: []string{"v0"}},
+		Thorough: tierSpec{Runs: 1000000, Budget: 15 * time.Minute, Variants: []string{"v0", "v1"}},
+		Real:     []string{"graphql/handler/extension.AutomaticPersistedQuery", "graphql/handler.Server with transport.GET and transport.POST", "graphql/executor", "graphql/handler/lru (one third of the histories)", "generated executor"},
+		Stubbed:  []string{"APQ cache: harness cache that parks in Get/Add, evicts any entry at any quiescent point and may drop an Add (two thirds of the histories)", "resolvers (deterministic, not parked)", "request arrival/overlap (scheduler)"},
+		Rule: "one run = one history of up to 10 (thorough 30; overlapped ones at most 12) requests over 4 query texts x {text only, text+correct hash, text+hash of another text, hash only, malformed extension, wrong version, never-registered hash}, over POST and GET, hash-only requests biased towards hashes sent earlier; sequential histories are checked step by step against the model (registered set; hash-only may execute exactly the registered text or answer PersistedQueryNotFound), overlapped ones (requests interleaved at the parking cache) are recorded as invoke/return pairs stamped with scheduler steps and checked with porcupine; after every step every cache entry must satisfy sha256(value)==key. non-trivial = history of at least two requests; distinct = hash of (cache kind, history with outcomes, event log)",
+		Faults: "cache eviction at any quiescent point, dropped Add, interleaving of concurrent requests inside Cache.Get/Add, mismatching and malformed client input",
+		Assume: []string{"porcupine Unknown (30 s timeout) would be reported as infrastructure trouble, never as a violation"},
+	},
 }
